@@ -237,6 +237,10 @@ def _(u):
     td = SymTD({"reward_key": u.tensor("tdval", (K * B, 3), "f")}, (K * B,))
     env = u.ns(get_reward=lambda td_, a_: rew)  # env.get_reward abstracted: one reward per replicated row
     strat = u.obj(DEC, "Greedy", num_starts=K)
+    from tvc.unit import on_reduction
+
+    captured = []
+    on_reduction(u, "", captured.append)
     lo, ao, tdo, _ = u.run(DEC, "DecodingStrategy._select_best", logp, act, td, env, selfobj=strat, record=False)
     u.native("decoding.select_best")   # the env is a stub: replay natively with an env whose get_reward returns the witness rewards
     u.native_out("logprobs", lo)
@@ -249,13 +253,14 @@ def _(u):
     same_tensor(u, "best.logprobs.shape", lo, (B, T), lambda bb, tt: lo.at(bb, tt))
     # there is one rollout index j* of instance b, maximal in reward among its own K rollouts, and actions,
     # log-probs and state rows returned for b are exactly those of rollout j*
-    js = z3.Int("jstar")
-    u.ctx.scalars["jstar"] = (js, "i")
-    u.prove("best.same-rollout-and-maximal", z3.Exists([js], AND(
-        js >= 0, js < K,
-        ao.at(b, t) == act.at(js * B + b, t), lo.at(b, t) == logp.at(js * B + b, t),
-        tdo["reward_key"].at(b, 1) == td["reward_key"].at(js * B + b, 1),
-        z3.ForAll([j], z3.Implies(z3.And(j >= 0, j < K), rew.at(js * B + b) >= rew.at(j * B + b))))))
+    # witness: the argmax over the K rollouts of instance b that the body itself computes (torch.max contract)
+    am = [r_ for r_ in captured if r_.kind == "argmax" and r_.outer_rank == 1]
+    js = am[0].app((b,))
+    u.prove("best.witness-in-range", AND(js >= 0, js < K))
+    u.prove("best.same-rollout.actions", ao.at(b, t) == act.at(js * B + b, t))
+    u.prove("best.same-rollout.logprobs", lo.at(b, t) == logp.at(js * B + b, t))
+    u.prove("best.same-rollout.state", tdo["reward_key"].at(b, 1) == td["reward_key"].at(js * B + b, 1))
+    u.prove("best.maximal-among-own-rollouts", rew.at(js * B + b) >= rew.at(j * B + b))
     u.canary("best.first-rollout", ao.at(b, t) == act.at(b, t))
 
 
